@@ -99,7 +99,11 @@ func init() {
 			}
 			d := ref.Det(a)
 			x.wantS = []float64{d}
-			x.tolS = []float64{detC * float64(a.R) * u * kap * math.Abs(d)}
+			// Det is documented as exp(LogDet)*sign: the rounding of the
+			// logarithm costs |log|det|| ulps on top of the LU error (it
+			// matters for the scaled value classes, |log| up to 624).
+			logd := math.Abs(math.Log(math.Abs(d))) + math.Abs(float64(x.outExp))*math.Ln2
+			x.tolS = []float64{(detC*float64(a.R)*kap + 400*logd) * u * math.Abs(d)}
 			return true
 		},
 		call: func(x *caseX) { x.outS = []float64{mat.Det(x.obj[0])} }})
@@ -283,7 +287,12 @@ func init() {
 		},
 		fixup: func(g *vrt.Rand, x *caseX) {
 			if x.p.mode == 1 {
-				if !perturb(g, x, func(v float64) float64 { return v + 0.5 }) {
+				if !perturb(g, x, func(v float64) float64 {
+					if v+0.5 != v {
+						return v + 0.5
+					}
+					return 1.5 * v
+				}) {
 					x.p.mode = 0
 				}
 			}
